@@ -23,16 +23,18 @@ package numeric
 //@   inline
 //@   ensures result <= 4294967295
 
-// Round trip: both coordinates come back exactly (their low 32 bits: scaled coordinates are below
-// 2^32), for all 2^128 input pairs.
+// Round trip: both coordinates come back exactly, for all pairs of 32-bit values (Interleave does
+// not mask its inputs: scaled coordinates are at most 2^32-1, see geo.scaleLon / scaleLat).
 //@ func verifLemmaInterleaveRoundTrip
 //@   props C18
 //@   mode bv
 //@   ensures true
 func verifLemmaInterleaveRoundTrip(a, b uint64) {
-	h := Interleave(a, b)
-	verifAssert(Deinterleave(h) == a&0xFFFFFFFF)
-	verifAssert(Deinterleave(h>>1) == b&0xFFFFFFFF)
+	if a <= 0xFFFFFFFF && b <= 0xFFFFFFFF {
+		h := Interleave(a, b)
+		verifAssert(Deinterleave(h) == a)
+		verifAssert(Deinterleave(h>>1) == b)
+	}
 }
 
 // Order: the interleaved code of a pair of 32-bit values is monotone in each coordinate when the
